@@ -182,7 +182,7 @@ func main() {
 				if rule.Once && i > 0 {
 					continue
 				}
-				rule.Run(c)
+				runRule(c, rule)
 			}
 			if *tier == "thorough" && c.e3 != nil && i == 0 {
 				// determinism cross-check of the E3 fix-point under the reverse processing order
@@ -216,4 +216,75 @@ func main() {
 	exit := rep.finish(finishOpts{Tier: *tier, EvidencePath: *evid, ReplayDir: *replayDir, Seed: seed, Wall: time.Since(start).Seconds(), Known: kn,
 		Explanation: p.Explanation + " Rules applied — " + strings.Join(ruleDocs, " | "), Configs: cfgNames, Only: *only})
 	os.Exit(exit)
+}
+
+// runRule runs one rule. Obligations it cannot discharge are decided a second time under another, equally faithful presentation of
+// the same code — exported methods called STATICALLY on the bare receiver (ego.ForEach(…), ego.Get(k): calls no derived type can
+// intercept) followed into their bodies — and an obligation discharged there is discharged: a sibling delegated to, or a sibling's
+// body spelled out, is the same program. What fails under both presentations is reported as the first presentation saw it.
+func runRule(c *Ctx, rule Rule) {
+	first := newReport("tmp")
+	c1 := *c
+	c1.R = first
+	rule.Run(&c1)
+	if c.e3 == nil {
+		c.e3 = c1.e3
+	}
+	open := false
+	for _, o := range first.obls {
+		if o.Status != Discharged {
+			open = true
+		}
+	}
+	for _, fl := range first.floors {
+		if fl[0] < fl[1] {
+			open = true
+		}
+	}
+	var second *Report
+	if open && !c.AltInline {
+		second = newReport("tmp")
+		c2 := *c
+		c2.R = second
+		c2.AltInline = true
+		func() {
+			defer func() {
+				if r := recover(); r != nil {
+					second = nil // the second presentation is an extra; a failure in it leaves the first verdict standing
+				}
+			}()
+			rule.Run(&c2)
+		}()
+	}
+	alt := map[string]*Obligation{}
+	if second != nil {
+		for _, o := range second.obls {
+			alt[o.Key()+"@"+o.Config] = o
+		}
+	}
+	for _, o := range first.obls {
+		if o.Status != Discharged {
+			if a, ok := alt[o.Key()+"@"+o.Config]; ok && a.Status == Discharged {
+				a.Why += " [decided with statically called siblings followed into their bodies]"
+				c.R.add(a)
+				continue
+			}
+		}
+		c.R.add(o)
+	}
+	for rid, fl := range first.floors {
+		if second != nil {
+			if f2, ok := second.floors[rid]; ok && f2[0] > fl[0] {
+				fl = f2
+			}
+		}
+		c.R.Floor(rid, fl[0], fl[1])
+	}
+	for k, v := range first.counters {
+		c.R.counters[k] += v
+	}
+	for k := range first.assume {
+		c.R.assume[k] = true
+	}
+	c.R.notes = append(c.R.notes, first.notes...)
 }
